@@ -62,7 +62,7 @@ pub fn check_writer(h: &WHistory, obs: &mut Obs) -> CheckResult {
 }
 
 fn run(ctx: &Ctx) {
-    let n = ctx.share(ctx.tier.pick(100_000, 3_000_000));
+    let n = ctx.share(ctx.tier.pick(160_000, 3_000_000));
     let strat = (
         history_strategy(400, 50, true),
         proptest::option::weighted(0.25, (1u32..6, 0u32..5)),
@@ -72,7 +72,7 @@ fn run(ctx: &Ctx) {
             h
         });
     ctx.run_cases("reader-history", n, strat, check_reader);
-    let n = ctx.share(ctx.tier.pick(40_000, 1_000_000));
+    let n = ctx.share(ctx.tier.pick(80_000, 1_500_000));
     ctx.run_cases("writer-history", n, whistory_strategy(40, true), check_writer);
 }
 
